@@ -377,13 +377,16 @@ fn long_sessions(rep: &mut Report, cfg: &Cfg, c18: bool) {
     }
     let lens: Vec<usize> = lens.into_iter().enumerate().filter(|(i, _)| (*i as u64) % cfg.shards == cfg.shard).map(|(_, l)| l).collect();
     for prefix in lens {
-        for burst in [2usize, 3, 50, 255, 256, 257, 400] {
+        for (burst, late) in [2usize, 3, 50, 255, 256, 257, 400].into_iter().flat_map(|b| [(b, false), (b, true)]) {
             if burst > 3 && prefix > 1100 {
                 continue; // keep the quadratic part small
             }
+            if late && !c18 {
+                continue;
+            }
             let caps: Vec<&str> = vec!["urn:ietf:params:netconf:base:1.0"];
             let mut s = crate::sess::establish_ok(&caps);
-            let wit = |what: &str, detail: String| json!({"completed_requests_before": prefix, "burst": burst, "what": what, "observed": detail, "seed": cfg.seed});
+            let wit = |what: &str, detail: String| json!({"completed_requests_before": prefix, "burst": burst, "replies_to_abandoned_requests_arrive_after_the_fresh_request": late, "what": what, "observed": detail, "seed": cfg.seed});
             // the completed prefix
             let mut ok = true;
             for k in 0..prefix {
@@ -425,7 +428,7 @@ fn long_sessions(rep: &mut Report, cfg: &Cfg, c18: bool) {
                 rep.violation("harness:long-session", "could not read the message-ids", wit("burst", format!("{ids:?}")));
                 continue;
             }
-            let key = format!("long|{prefix}|{burst}|{c18}");
+            let key = format!("long|{prefix}|{burst}|{c18}|{late}");
             rep.case(Some(key.as_bytes()));
             rep.count("long_session_cases");
             rep.count_n("long_session_requests_served", (prefix + burst + 1) as u64);
@@ -434,9 +437,15 @@ fn long_sessions(rep: &mut Report, cfg: &Cfg, c18: bool) {
                 for f in futs.iter_mut().skip(1) {
                     *f = None;
                 }
-                // the abandoned requests' replies arrive first, the survivor's last
-                for k in (0..burst).rev() {
-                    s.wire.deliver(memwire::data_reply(&ids[k], &format!("b{k}")));
+                if late {
+                    // only the survivor's reply arrives now; the abandoned requests' replies come
+                    // later, after the fresh request has been issued (see below)
+                    s.wire.deliver(memwire::data_reply(&ids[0], "b0"));
+                } else {
+                    // the abandoned requests' replies arrive first, the survivor's last
+                    for k in (0..burst).rev() {
+                        s.wire.deliver(memwire::data_reply(&ids[k], &format!("b{k}")));
+                    }
                 }
                 match drive(futs[0].take().unwrap(), 4 * burst + 64) {
                     Some(Ok(v)) if &*v == "b0" => {}
@@ -465,7 +474,19 @@ fn long_sessions(rep: &mut Report, cfg: &Cfg, c18: bool) {
                 }
             }
             // the session must remain usable
-            let ex = s.exchange::<Get, _, _>(|b| b.finish(), |id| Some(memwire::data_reply(id.unwrap_or("0"), "fresh")));
+            let w = s.wire.clone();
+            let late_ids: Vec<String> = if late && c18 { ids[1..].to_vec() } else { vec![] };
+            let ex = s.exchange::<Get, _, _>(
+                |b| b.finish(),
+                |id| {
+                    // replies to requests abandoned long ago are still on their way: they arrive
+                    // ahead of the fresh request's own reply
+                    for (k, i) in late_ids.iter().enumerate() {
+                        w.deliver(memwire::data_reply(i, &format!("late{k}")));
+                    }
+                    Some(memwire::data_reply(id.unwrap_or("0"), "fresh"))
+                },
+            );
             match ex {
                 crate::sess::Exchange::Reply { result: Ok(v), .. } if &*v == "fresh" => {}
                 other => {
